@@ -210,8 +210,11 @@ theorem advance_or_wait (hr : ReachC cfg s) (hne : s.rt ≠ .exited) :
         | true => exact Or.inr (Or.inr (adv_scWake hne hsc hcr))
         | false => exact Or.inr (Or.inl ⟨hrun, rfl, Or.inr rfl⟩)
       | waitRoots =>
+        cases hcr : s.creq (.root .startupCleanup) with
+        | true => exact Or.inr (Or.inr (adv_scCut_waitRoots hne hsc hcr))
+        | false =>
         cases hoe : othersEnded s with
-        | true => exact Or.inr (Or.inr (adv_scWaitRootsEnd hne hsc hoe))
+        | true => exact Or.inr (Or.inr (adv_scWaitRootsEnd hne hsc hoe hcr))
         | false =>
           -- some other root task is alive; `run_tasks` is stopping them, so it is cancelled or in its `finally:`
           exfalso
@@ -453,14 +456,15 @@ theorem advance_or_wait (hr : ReachC cfg s) (hne : s.rt ≠ .exited) :
 theorem stepC_eq_step {l : Label} (hnd : ∀ n, l ≠ .delay n) : stepC cfg s l = step cfg s l := by
   cases l <;> first | rfl | exact absurd rfl (hnd _)
 
-/-- every label but `orchAbandon` leaves the flag `abandoned` as it is -/
-theorem abandoned_step {l : Label} {s' : State} (h : step cfg s l = some s') (hl : l ≠ .orchAbandon) :
+/-- every label but the three at which a run of a historical variant leaves the model (`Label.leaves`) leaves the flag
+    `abandoned` as it is -/
+theorem abandoned_step {l : Label} {s' : State} (h : step cfg s l = some s') (hl : l.leaves = false) :
     s'.abandoned = s.abandoned := by
   cases l <;> simp only [step] at h
   all_goals (repeat' (split at h))
   all_goals (first | (cases h; done) | skip)
   all_goals (cases h)
-  all_goals (first | rfl | exact absurd rfl hl)
+  all_goals (first | rfl | (simp [Label.leaves] at hl))
 
 /-- `orchAbandon` does not decrease the measure: no step of the shutdown strategy (`Advance`) is an abandonment -/
 theorem orchAbandon_mu {s' : State} (h : step cfg s .orchAbandon = some s') : mu cfg s' = mu cfg s := by
@@ -469,14 +473,14 @@ theorem orchAbandon_mu {s' : State} (h : step cfg s .orchAbandon = some s') : mu
   · cases h; rfl
   · cases h
 
-theorem returns_aux : ∀ (n : Nat) (s : State), mu cfg s ≤ n → ReachC cfg s → Triggered s → s.abandoned = false →
-    ∃ ls s', runI cfg s ls = some s' ∧ s'.rt = .exited ∧ s'.abandoned = false := by
+theorem returns_aux : ∀ (n : Nat) (s : State), mu cfg s ≤ n → ReachC cfg s → Triggered s →
+    ∃ ls s', runI cfg s ls = some s' ∧ s'.rt = .exited ∧ s'.abandoned = s.abandoned := by
   intro n
   induction n with
   | zero =>
-    intro s hmu hr ht hna
+    intro s hmu hr ht
     by_cases hex : s.rt = .exited
-    · exact ⟨[], s, rfl, hex, hna⟩
+    · exact ⟨[], s, rfl, hex, rfl⟩
     · exfalso
       rcases advance_or_wait hr hex with ⟨l, s1, _, _, _, hlt⟩ | ⟨_, hw⟩
       · omega
@@ -484,18 +488,24 @@ theorem returns_aux : ∀ (n : Nat) (s : State), mu cfg s ≤ n → ReachC cfg s
         have : 0 < mu cfg s := by simp only [mu, hrt, rtRank]; omega
         omega
   | succ n ih =>
-    intro s hmu hr ht hna
+    intro s hmu hr ht
     by_cases hex : s.rt = .exited
-    · exact ⟨[], s, rfl, hex, hna⟩
+    · exact ⟨[], s, rfl, hex, rfl⟩
     · rcases advance_or_wait hr hex with ⟨l, s1, hint, hnd, hstep, hlt⟩ | ⟨_, hw⟩
       · have hsc : stepC cfg s l = some s1 := by rw [stepC_eq_step hnd]; exact hstep
-        have hlab : l ≠ .orchAbandon := by
-          intro hc; subst hc
-          have := orchAbandon_mu hstep
-          omega
-        have hna1 : s1.abandoned = false := by rw [abandoned_step hstep hlab]; exact hna
-        obtain ⟨ls, s', hrun, hex', hna'⟩ := ih s1 (by omega) (hr.step hsc) (triggered_step ht hstep) hna1
-        exact ⟨l :: ls, s', by simp [runI, hint, hsc, hrun], hex', hna'⟩
+        have hlab : l.leaves = false := by
+          cases hlv : l.leaves with
+          | false => rfl
+          | true =>
+            exfalso
+            cases l <;> simp [Label.leaves] at hlv
+            · have := orchAbandon_mu hstep
+              omega
+            · simp [internal] at hint
+            · simp [internal] at hint
+        have hna1 : s1.abandoned = s.abandoned := abandoned_step hstep hlab
+        obtain ⟨ls, s', hrun, hex', hna'⟩ := ih s1 (by omega) (hr.step hsc) (triggered_step ht hstep)
+        exact ⟨l :: ls, s', by simp [runI, hint, hsc, hrun], hex', by rw [hna', hna1]⟩
       · obtain ⟨dl, hrt, hlt, hco⟩ := hw ht
         have hstep : step cfg s (.delay (dl - s.now)) = some { s with now := s.now + (dl - s.now) } := by
           simp [step, hex]; omega
@@ -503,7 +513,7 @@ theorem returns_aux : ∀ (n : Nat) (s : State), mu cfg s ≤ n → ReachC cfg s
           simp only [stepC, hco, if_true]; exact hstep
         have hlt' : mu cfg { s with now := s.now + (dl - s.now) } < mu cfg s := by
           simp only [mu, hrt, hungTime]; omega
-        obtain ⟨ls, s', hrun, hex', hna'⟩ := ih _ (by omega) (hr.step hsc) (triggered_step ht hstep) hna
+        obtain ⟨ls, s', hrun, hex', hna'⟩ := ih _ (by omega) (hr.step hsc) (triggered_step ht hstep)
         exact ⟨.delay (dl - s.now) :: ls, s', by simp [runI, internal, hsc, hrun], hex', hna'⟩
 
 end Kopf.C20
